@@ -44,7 +44,30 @@ pub mod visitor;
 #[allow(dead_code)]
 pub(crate) fn verif_point(_tag: &'static str) {
     #[cfg(qrlew_verif)]
-    shuttle::thread::sleep(std::time::Duration::ZERO);
+    {
+        shuttle::thread::sleep(std::time::Duration::ZERO);
+        // fault injection: the calling (simulated) thread abandons its call here
+        VERIF_ABANDON.with(|c| match c.get() {
+            0 => (),
+            1 => {
+                c.set(0);
+                panic!("verif: caller abandoned at {}", _tag)
+            }
+            n => c.set(n - 1),
+        });
+    }
+}
+
+#[cfg(qrlew_verif)]
+shuttle::thread_local! {
+    static VERIF_ABANDON: std::cell::Cell<u64> = std::cell::Cell::new(0);
+}
+
+/// Verification hook: make the calling simulated thread panic at its `n`-th next `verif_point`
+/// (0 disarms). None of the points lies inside the name counter's critical section.
+#[cfg(qrlew_verif)]
+pub fn verif_abandon_after(n: u64) {
+    VERIF_ABANDON.with(|c| c.set(n));
 }
 
 pub use builder::{Ready, With, WithContext, WithIterator, WithoutContext};
